@@ -279,8 +279,15 @@ def _check_no_other_refusal(res: Result, proj: Project, cg):
         ("PickAPerm.compute_consensus_rankings", "InompleteRankingsIncompatibleWithScoringSchemeException"),
         ("ExactAlgorithmCplex.compute_consensus_rankings", "IncompatibleArgumentsException"),
     }
-    tolerated_funcs = {"KemenyComputingFactory.get_kemeny_score", "Ranking.__init__", "Element.__init__",
-                       "Dataset._analyse_rankings", "ScoringScheme.__init__", "ScoringScheme.__mul__"}
+    # the data classes validate what they are given (malformed penalties, overlapping buckets, empty dataset, candidate
+    # not over the universe ...): input validation, wherever those modules choose to write it, is not a refusal of a
+    # (dataset, scheme) combination. A refusal is a raise inside an algorithm module, or a raise anywhere of one of the
+    # "combination not handled" exceptions.
+    data_modules = {"corankco.scoringscheme", "corankco.dataset", "corankco.ranking", "corankco.element",
+                    "corankco.kemeny_score_computation", "corankco.utils", "corankco.consensus",
+                    "corankco.partitioning.ordered_partition"}
+    refusal_family = {"ScoringSchemeNotHandledException", "InompleteRankingsIncompatibleWithScoringSchemeException",
+                      "IncompatibleArgumentsException"}
     roots = []
     for c in proj.all_classes():
         if c.module.name.startswith(ALG):
@@ -296,7 +303,9 @@ def _check_no_other_refusal(res: Result, proj: Project, cg):
                 e = n.exc.func if isinstance(n.exc, ast.Call) else n.exc
                 name = (dotted(e) or "").split(".")[-1]
                 n_raise += 1
-                if name == "NotImplementedError" or (f.short, name) in allowed or f.short in tolerated_funcs:
+                if name == "NotImplementedError" or (f.short, name) in allowed:
+                    continue
+                if f.module.name in data_modules and name not in refusal_family:
                     continue
                 unknown.append((f, n, name))
     res.check(not unknown, "A3", "compute-paths:no-other-refusal", "corankco/algorithms",
